@@ -16,6 +16,10 @@ PATHWAYS = ["math", "logic", "tool", "transform"]
 PW_COQ = {"math": "Glycolysis", "logic": "Krebs", "tool": "Oxidative", "transform": "BetaOx"}
 
 
+class HarnessAlarm(BaseException):
+    """Raised by the harness's interval timer inside a metabolize call that does not come back."""
+
+
 class ExprGen:
     """Strings over (nearly) every ast.expr class; operand magnitudes stay small."""
 
@@ -120,7 +124,9 @@ class ExprGen:
                          "1" + "+1" * 100, "9" * 5000, "\ud800", "'\ud800'", "tru e", "\t2 + 2", "2 +\n 2",
                          "0 or 5", "(2 or 3) - 1", "len('True') == 4", "true and false", "1 < 2 < 3", "3 > 2 > 2",
                          "1\r2", "max(1,\r2))", "(\r", "1 +\r\r)", "1\n\n2", "\r\n1 1", "1\x0c2", "a\u2028b", "1\r\r\r+", "'\r' '",
-                         "1\t\t2", "[1,\r2", "{1:\r2,}}", "\ufeff1 1"])
+                         "1\t\t2", "[1,\r2", "{1:\r2,}}", "\ufeff1 1",
+                         "```json", "```json {\"a\": 1}```", "```[1, 2, 3]```", "```\n[1]\n```", "``````", "```", "`1`", "```json\n{}",
+                         "{\"a\": 1}```", "~~~\n[1]\n~~~", "<json>[1]</json>", "[1]\n```"])
 
 
 def _child(expr, pathway, q):
@@ -209,9 +215,24 @@ class C01(Check):
 
     # -- implementation ------------------------------------------------------
     def run_impl(self, case):
+        import signal
+        import threading
         rec = MC.Recorder(case["tools"], case["allowed"], silent=case["silent"])
         expr = case["expr"]
-        res, raised, wall = rec.run(expr, case["pathway"], stdout_strict=not case["silent"])
+        use_alarm = threading.current_thread() is threading.main_thread()
+        if use_alarm:
+            def on_alarm(signum, frame):
+                raise HarnessAlarm()
+            old = signal.signal(signal.SIGALRM, on_alarm)
+            signal.setitimer(signal.ITIMER_REAL, 6.0)
+        try:
+            res, raised, wall = rec.run(expr, case["pathway"], stdout_strict=not case["silent"])
+        finally:
+            if use_alarm:
+                signal.setitimer(signal.ITIMER_REAL, 0)
+                signal.signal(signal.SIGALRM, old)
+        if isinstance(raised, HarnessAlarm):
+            return [[3, -1, len(rec.nodes)]], {"rec": rec, "res": None, "raised": None, "wall": wall, "hang": True}
         I = rec.I
         steps = len(rec.nodes)
         if raised is not None:
@@ -264,6 +285,10 @@ class C01(Check):
     def monitor(self, case, obs, trace):
         if trace.get("harness_error"):
             return Violation("C01/harness", str(trace))
+        if trace.get("hang"):
+            sig = self._slow_signature(case["expr"])
+            return Violation(sig if sig == "C01/unbounded-primitive" else sig.replace("C01/slow", "C01/hang"),
+                             f"metabolize({case['expr'][:60]!r}) had not returned after 6 s (timeout_seconds=5.0)")
         if trace["raised"] is not None:
             return Violation("C01/raises", f"metabolize raised {type(trace['raised']).__name__}: {trace['raised']}")
         if trace.get("digest_raised") is not None:
@@ -284,16 +309,75 @@ class C01(Check):
 
     @staticmethod
     def _slow_signature(expr):
+        """`C01/unbounded-primitive` (the known finding) only if the expression contains an allow-listed
+        Pow / Mult / factorial / pow whose result, by a size-abstract evaluation of its operands, needs more
+        than 10^7 bits; every other slow or non-returning input is a different signature."""
         try:
             tree = ast.parse(expr, mode="eval")
         except BaseException:
             return "C01/slow-unparseable"
-        for n in ast.walk(tree):
-            if isinstance(n, ast.BinOp) and isinstance(n.op, (ast.Pow, ast.Mult)):
-                return "C01/unbounded-primitive"
-            if isinstance(n, ast.Call) and isinstance(n.func, ast.Name) and n.func.id in ("factorial", "pow"):
-                return "C01/unbounded-primitive"
-        return "C01/slow"
+        LIMIT = 10 ** 7
+        huge = [False]
+
+        def size(n):
+            """-> (upper bound on the bit length of the value, small exact value or None)"""
+            if isinstance(n, ast.Constant):
+                v = n.value
+                if isinstance(v, bool):
+                    return 1, int(v)
+                if isinstance(v, int):
+                    return max(1, v.bit_length()), (v if abs(v) < 10 ** 12 else None)
+                if isinstance(v, (str, bytes)):
+                    return 8 * len(v) + 8, None
+                return 64, None
+            if isinstance(n, ast.UnaryOp):
+                b, v = size(n.operand)
+                return b, (-v if v is not None and isinstance(n.op, ast.USub) else v if isinstance(n.op, ast.UAdd) else None)
+            if isinstance(n, ast.BinOp):
+                lb, lv = size(n.left)
+                rb, rv = size(n.right)
+                if isinstance(n.op, ast.Pow):
+                    e = rv if rv is not None else (2 ** min(rb, 64))
+                    bits = lb * max(1, abs(e)) if lb < LIMIT else LIMIT + 1
+                    val = lv ** rv if lv is not None and rv is not None and 0 <= rv < 64 and abs(lv) < 2 ** 16 else None
+                    if val is not None:
+                        bits = max(1, val.bit_length())
+                    if bits > LIMIT:
+                        huge[0] = True
+                    return min(bits, LIMIT * 10), (val if val is not None and abs(val) < 10 ** 12 else None)
+                if isinstance(n.op, ast.Mult):
+                    # int * int adds bit lengths; sequence * int multiplies the size by the value
+                    k = rv if rv is not None else (lv if lv is not None else None)
+                    bits = max(lb + rb, (lb if rv is not None else rb) * abs(k) if k is not None else 2 ** min(max(lb, rb), 40))
+                    if bits > LIMIT:
+                        huge[0] = True
+                    return min(bits, LIMIT * 10), (lv * rv if lv is not None and rv is not None and abs(lv * rv) < 10 ** 12 else None)
+                if isinstance(n.op, (ast.Add, ast.Sub)):
+                    return max(lb, rb) + 1, (lv + rv if lv is not None and rv is not None and isinstance(n.op, ast.Add) else
+                                             lv - rv if lv is not None and rv is not None else None)
+                return max(lb, rb), None
+            if isinstance(n, ast.Call) and isinstance(n.func, ast.Name) and n.func.id in ("factorial", "pow") and n.args:
+                ab, av = size(n.args[0])
+                if n.func.id == "factorial":
+                    k = av if av is not None else 2 ** min(ab, 40)
+                    bits = abs(k) * max(1, abs(k).bit_length())
+                else:
+                    eb, ev = size(n.args[1]) if len(n.args) > 1 else (1, 1)
+                    bits = ab * max(1, abs(ev) if ev is not None else 2 ** min(eb, 40))
+                if bits > LIMIT:
+                    huge[0] = True
+                return min(bits, LIMIT * 10), None
+            best = 64
+            for c in ast.iter_child_nodes(n):
+                if isinstance(c, ast.expr):
+                    best = max(best, size(c)[0])
+            return best, None
+
+        try:
+            size(tree.body)
+        except BaseException:
+            return "C01/slow"
+        return "C01/unbounded-primitive" if huge[0] else "C01/slow"
 
     def nontrivial(self, case, obs, trace):
         rec = trace.get("rec")
@@ -378,6 +462,38 @@ class C01(Check):
                             case={"history": ["register tt", first_call, change, second_call], "expr": "tt()", "pathway": None,
                                   "tools": [], "allowed": None, "silent": True, "tool_identity_probe": True}))
         self.extra_cov["tool_identity_probes"] = n_id
+        # 3. an engine that has become dysfunctional (error budget used up) must still answer with a failure result,
+        #    however it got there: failing expressions, failing structured tool calls, or a zero budget
+        n_dys = 0
+        for how in ("expr", "call", "unknown-call", "zero", "mixed"):
+            for max_ros in (0.3, 0.1, 0.0, 1.0):
+                m = Mitochondria(silent=True, max_ros=max_ros)
+                m.engulf_tool(SimpleTool(name="boom", description="", func=lambda *a, **k: 1 / 0))
+                try:
+                    for i in range(14):
+                        if how == "expr" or (how == "mixed" and i % 2):
+                            m.metabolize("1 +")
+                        elif how == "call" or how == "mixed":
+                            m.execute_tool_call(ToolCall(id=str(i), name="boom", arguments={}))
+                        elif how == "unknown-call":
+                            m.execute_tool_call(ToolCall(id=str(i), name="ghost", arguments={}))
+                    out = [m.metabolize("1 + 1"), m.metabolize("boom()"), m.metabolize("[1]"), m.metabolize("1 < 2")]
+                    m.digest_glucose("2 * 3")
+                    m.get_statistics()
+                    m.repair()
+                    out.append(m.metabolize("1 + 1"))
+                    ok = all(hasattr(r, "success") for r in out)
+                except BaseException as e:  # noqa
+                    ok = False
+                    self.violations.append(Violation(
+                        "C01/raises", f"engine driven to its error budget by '{how}' (max_ros={max_ros}) raised "
+                        f"{type(e).__name__}: {str(e)[:80]}",
+                        case={"dysfunction_probe": how, "max_ros": max_ros, "expr": "1 + 1", "pathway": None, "tools": [],
+                              "allowed": None, "silent": True}))
+                n_dys += 1
+                if not ok:
+                    break
+        self.extra_cov["dysfunction_probes"] = n_dys
         # 3. resource stream, each in a child process with a hard limit
         stream = [("9**9**9", None), ("2**100000", None), ("factorial(3000)", None), ("'ab' * 10**9", None),
                   ("1" + "+1" * 2000, None), ("-" * 5000 + "1", "math"), ("(" * 4000 + "1" + ")" * 4000, None),
